@@ -12,14 +12,14 @@ func init() {
 	log.Root().SetHandler(log.DiscardHandler())
 	kernel.Register(&kernel.Rig{
 		Property: "C15", Name: "R-chain/mempool-scheduler", Level: "exploration",
-		Rule: "one run = one drawn chain (2-6 accounts rich/poor/empty with genesis nonces 0-3, 1-3 validators, trie or kv state) x one mempool configuration (pool/future-queue/reap/per-account limits small or default, dedup cache on in 1/5, future eviction on in 1/4) x one tape-decided interleaving of 40-320 steps: start a client AddTx (valid next nonce, future nonce, consumed nonce, rival with a pending nonce, re-delivery of known bytes, underfunded, oversized, illegal gas), release one client parked between the dedup-cache put and the pool lock, Reap(k), build+commit a block from the node's own mempool (full or capped reap) or another proposer's block (per-sender prefixes of the offer plus never-submitted gap fillers/rivals/in-flight transactions), advance the virtual clock; the offer invariant is evaluated after every step; non-trivial = >= 2 blocks and >= 3 committed transactions; distinct = per-block committed sets + final ledger",
-		Real: []string{"mempool.Mempool (AddTx, Reap, Update, promoteExecutables, eviction loop, tx cache with its expiry routines)", "app.LinkApplication (CheckTx basic/state against checkTxState, CreateBlock, PreRunBlock, CheckBlock, CommitBlock incl. mempool Lock/Update/Unlock)", "consensus.BlockExecutor.ApplyBlock + validateBlock", "state.StateDB (trie and kv mode)", "blockchain.BlockStore, txmgr, utxo store", "types.Transaction signing/recovery (cgo secp256k1)"},
-		Stub: []string{"consensus rounds (the producer builds the proposal block the way createProposalBlock does, wires it through a part set, signs all precommits itself and runs the finalizeCommit sequence)", "p2p switch", "storage engine (SimDB)", "libxcrypto (pure-Go model / stub)"},
+		Rule: "one run = one drawn chain (2-6 accounts rich/poor/empty with genesis nonces 0-3, 1-3 validators, trie or kv state; in 2/5 of the runs 2-3 confidential wallets funded by a first block) x one mempool configuration (Size/FutureSize/MaxReapSize/UTXOSize/AccountQueue small or default, dedup cache on in 1/5, future eviction on in 1/4) x one tape-decided interleaving of 40-320 steps: start a client AddTx (valid next nonce, future nonce, consumed nonce, rival with a pending nonce, re-delivery of known bytes, underfunded, oversized, illegal gas; confidential: account->hidden funding, hidden->hidden and hidden->account spends with rings of 1-3, a rival spend of an output that has a pending spend, the same output twice in one transaction), release one client parked between the dedup-cache put and the pool lock (before and/or after the basic check), Reap(k), build+commit a block from the node's own mempool (full or capped reap) or another proposer's block (per-sender prefixes of the offer, a subset of the offered spends, never-submitted gap fillers/rivals/in-flight transactions, never-seen rival spends), advance the virtual clock (past the age limits in 1/6 of the runs); the offer invariant is evaluated after every step, the execute-the-offer oracle (CreateBlock+PreRunBlock on the node, CheckBlock on an independent replica) on 1/8-1/2 of the steps and on every produced block; non-trivial = >= 2 blocks and >= 3 committed transactions; distinct = per-block committed sets + final ledger",
+		Real: []string{"mempool.Mempool (AddTx, Reap, Update, promoteExecutables, eviction loop, key-image cache, tx cache with its expiry routines)", "app.LinkApplication (CheckTx basic/state against checkTxState, CreateBlock, PreRunBlock, CheckBlock, CommitBlock incl. mempool Lock/KeyImageReset/Update/Unlock)", "consensus.BlockExecutor.ApplyBlock + validateBlock", "state.StateDB (trie and kv mode)", "blockchain.BlockStore, txmgr, utxo.UtxoStore", "types.Transaction signing/recovery (cgo secp256k1)", "types.UTXOTransaction wallet-side construction and node-side verification (on the xcrypto stand-in)"},
+		Stub: []string{"consensus rounds (the producer builds the proposal block the way createProposalBlock does, wires it through a part set, signs all precommits itself and runs the finalizeCommit sequence)", "p2p switch", "storage engine (SimDB)", "libxcrypto (pure-Go model)"},
 		Assumptions: []string{
 			"one goroutine runs between two quiescence points: interleavings are explored at the granularity {dedup-cache put | basic check | locked section} of AddTx against whole Reap/Update calls",
-			"promotion/offer-completeness is demanded only for transactions that the independent ledger shows contiguous from the committed nonce and covered, younger than mempool.GoodTxDropTime/Lifetime, while the offer is below Size and MaxReapSize, not demoted under a small FutureSize and not beyond AccountQueue",
-			"tight-limit runs let only one account at a time own future-queue entries (the node promotes accounts in Go map order; who gets the last free slot is not reproducible otherwise) — a restriction of the explored space, not of the oracle",
-			"confidential (UTXO) transactions are not generated while the xcrypto stand-in is a stub: key-image disjointness of the offer is not exercised",
+			"promotion/offer-completeness is demanded only for transactions that the independent ledger shows contiguous from the committed nonce and covered (spends: no key image spent on chain or shared with another accepted spend), younger than mempool.GoodTxDropTime/Lifetime, while the offer is below Size, MaxReapSize and UTXOSize, not demoted under a small FutureSize and not beyond AccountQueue",
+			"tight-limit runs let only one account at a time own future-queue entries (the node promotes accounts in Go map order; who gets the last free slot is not reproducible otherwise): enforced when a client's final phase is released — a restriction of the explored space, not of the oracle",
+			"only the native coin is moved (plain transfers and confidential transactions); token, contract and multi-signature transactions are not generated",
 		},
 		QuickRuns: 900, QuickBudget: 55 * time.Second, ThoroughRuns: 40000, ThoroughBudget: 15 * time.Minute,
 		RunsPerProcess: 60, RunTimeout: 90 * time.Second,
